@@ -564,13 +564,13 @@ Qed.
 
 (* <enabled/>: the whole SM queue is queued again, in order, and the inbound count restarts *)
 Lemma c04_enabled_step bt st ra id :
-  connected st = true -> h_sm st = true -> (ra = true -> id <> None) ->
+  connected st = true -> h_sm st = true -> sm_enabled st = true -> (ra = true -> id <> None) ->
   Forall (fun e => s_owner e = OUser) (smq st) ->
   let r := dispatch bt st (ISm (SmEnabled ra id)) in
   smq (fst r) = [] /\ sqc (fst r) = sqc st ++ smqg st /\ handled_nr (fst r) = 0 /\ neg_done (fst r) = true.
 Proof.
-  intros C H Hid F. cbn zeta. unfold dispatch, fire. rewrite C, H. cbn [negb].
-  unfold handle_sm.
+  intros C H Es Hid F. cbn zeta. unfold dispatch, fire. rewrite C, H. cbn [negb].
+  unfold handle_sm. cbn [sm_enabled set_h_sm]. rewrite Es. cbn [negb].
   set (st0 := set_handled_nr (set_h_sm st false) 0).
   assert (exists st1, (if ra then match id with Some i => Some (set_sm_id (set_can_resume st0 true) (Some i)) | None => None end
                        else Some st0) = Some st1 /\ connected st1 = true /\ smq st1 = smq st /\ sqc st1 = sqc st /\
